@@ -4,12 +4,21 @@
    through the accessors of the returned values; observed spatial IDs are the returned strings.
    corr  = the model's output (Tile.tiles_to_eids / tiles_to_sids / new_tile) equals the observed one as a sorted MULTISET (the Go
            result is in map-iteration order), the error flag agrees, and an error carries no result (nil / empty);
-   prop  = the boolean checkers below accept the OBSERVED output. They use the independent reference `tile_ref` — the metre-widened
-           cover of C12 computed with AltKey's integer formulas wid_min_z / wid_max_z and the index ranges, not the model key2z — and are
-           proved to decide the Prop-level specifications eids_spec / sids_spec / new_tile_spec_obs;
-   class = "int64_overflow" iff the int64 computation of some tile's range wraps (AltKey.key2z64m not exact): outside the property's
-           domain (base exponent outside 0..35 or |offset| > 2^50); the generators stay inside, where exactness is a theorem. *)
+   prop  = the boolean checkers below accept the OBSERVED output. The extended checker computes, per tile, C12's metre-widened cover with
+           AltKey's integer formulas wid_min_z / wid_max_z and the index ranges (not with the model function key2z), tests duplicates through
+           the sorted list and completeness by counting per tile; it is proved to DECIDE the specification eids_spec, which is stated without
+           the conversion function (Tile.tile_fits / stems_from), and eids_accepted_observation spells out what acceptance guarantees
+           (footprint, vertical zoom, cover of every tile, no stray voxel, no duplicate). Honest limits: the specification fixes the result
+           up to order, so on accepted observations prop and corr necessarily agree — prop's value is that its verdict is a proved statement
+           of the property, not a second implementation; zrange / expand_rec / the zoom tests are shared with the model; the spatial checker
+           is proved sound (->) and complete only for footprints of the grid;
+   class = "-" always, except "skipped" for a request the invoker refused because of its size (marker "c13-size-guard"), and only when
+           the dispatch entry's own estimate confirms it. Requests outside the domain — some int64 operation of a tile's range computation
+           wraps (AltKey.key2z64m not exact: base exponent outside 0..35 or |offset| > 2^50), or, for the spatial variant, x / y outside
+           [0, 2^hZoom) — are answered bad_case (never a pass); the generators stay inside. An error together with a non-empty result
+           is rejected before any domain test. *)
 From Coq Require Import ZArith String List Bool Lia Permutation Reals Orders Mergesort.
+From Flocq Require Import Core.
 From SID Require Import Base Str Wire AltKeyCore AltKey Ids ZoomCore Notation Tile.
 Import ListNotations.
 Open Scope string_scope.
@@ -22,7 +31,7 @@ Open Scope Z_scope.
 (* Some (mn, mx): the tile must be accepted with exactly this range; None: the tile must make the call fail *)
 Definition tile_ref (E O outV : Z) (t : tile) : option (Z * Z) :=
   let s := key_scale (tv t) E O in let g := sid_scale outV in
-  if ext_check_zoom (th t) outV && in_rangeb s (tz t) then
+  if ext_check_zoom (th t) outV && zoom_ok (tv t) && in_rangeb s (tz t) then      (* zoom_ok (tv t): the conversion refuses zooms outside 0..35 (9dab435) *)
     let mn := wid_min_z s g (tz t) in let mx := wid_max_z s g (tz t) in
     if in_rangeb g mn && in_rangeb g mx then Some (mn, mx) else None
   else None.
@@ -33,12 +42,14 @@ Proof. rewrite <- wid_min_z_spec, <- wid_max_z_spec. pose proof (cover_chain s i
 Lemma key2z_by_reference k kz out E O :
   key2z k kz out E O =
   let s := key_scale kz E O in let g := sid_scale out in
-  if in_rangeb s k then
+  if negb (zoom_ok kz) || negb (zoom_ok out) then Err
+  else if in_rangeb s k then
     let mn := wid_min_z s g k in let mx := wid_max_z s g k in
     if in_rangeb g mn && in_rangeb g mx then Ok (mn, mx) else Err
   else Err.
 Proof.
   rewrite key2z_unfold, (index_exists_eq k kz false E O), key2z_raw_spec. cbv zeta. fold (key_scale kz E O).
+  destruct (negb (zoom_ok kz) || negb (zoom_ok out)); [reflexivity|].
   destruct (in_rangeb (key_scale kz E O) k); cbn [negb]; [|reflexivity].
   pose proof (wid_z_le (key_scale kz E O) (sid_scale out) k) as L.
   set (mn := wid_min_z _ _ _) in *. set (mx := wid_max_z _ _ _) in *.
@@ -47,10 +58,13 @@ Proof.
     (Z.leb_spec (- 2 ^ out) mx), (Z.ltb_spec mx (2 ^ out)); cbn; try reflexivity; lia.
 Qed.
 
+Lemma ext_check_zoom_out h v : ext_check_zoom h v = true -> zoom_ok v = true.
+Proof. unfold ext_check_zoom, zoom_ok. intros H. apply andb_true_iff in H. tauto. Qed.
 Lemma tile_ref_Some E O outV t mn mx : tile_ref E O outV t = Some (mn, mx) <-> tile_accepted E O outV t mn mx.
 Proof.
   unfold tile_ref, tile_accepted. rewrite key2z_by_reference. cbv zeta.
-  destruct (ext_check_zoom (th t) outV); cbn [andb]; [|split; [discriminate|intros [? _]; discriminate]].
+  destruct (ext_check_zoom (th t) outV) eqn:Z; cbn [andb]; [|split; [discriminate|intros [? _]; discriminate]].
+  rewrite (ext_check_zoom_out _ _ Z). destruct (zoom_ok (tv t)); cbn [negb orb andb]; [|split; [discriminate|intros [_ ?]; discriminate]].
   destruct (in_rangeb (key_scale (tv t) E O) (tz t)); [|split; [discriminate|intros [_ ?]; discriminate]].
   destruct (in_rangeb _ _ && in_rangeb _ _); split; try discriminate.
   - intros [= <- <-]. auto.
@@ -60,7 +74,8 @@ Qed.
 Lemma tile_ref_None E O outV t : tile_ref E O outV t = None <-> tile_rejected E O outV t.
 Proof.
   unfold tile_ref, tile_rejected. rewrite key2z_by_reference. cbv zeta.
-  destruct (ext_check_zoom (th t) outV); cbn [andb]; [|split; auto].
+  destruct (ext_check_zoom (th t) outV) eqn:Z; cbn [andb]; [|split; auto].
+  rewrite (ext_check_zoom_out _ _ Z). destruct (zoom_ok (tv t)); cbn [negb orb andb]; [|split; auto].
   destruct (in_rangeb (key_scale (tv t) E O) (tz t)); [|split; auto].
   destruct (in_rangeb _ _ && in_rangeb _ _); split; auto; try discriminate. intros [?|?]; discriminate.
 Qed.
@@ -83,22 +98,109 @@ Definition covered_b (E O outV : Z) (r : list eid) (t : tile) : bool := covered_
 Definition rejected_ref (tr : tile * option (Z * Z)) : bool := match snd tr with None => true | Some _ => false end.
 Definition rejected_b (E O outV : Z) (t : tile) : bool := rejected_ref (t, tile_ref E O outV t).
 
-Fixpoint nodup_fast (l : list eid) : bool :=
-  match l with [] => true | a :: r => negb (memb eid_eqf a r) && nodup_fast r end.
-Lemma nodup_fast_spec l : nodup_fast l = true <-> NoDup l.
+(* multiset equality of ID lists: merge sort on the five numbers (vertical index first), then ordered comparison *)
+Fixpoint lex_leb (a b : list Z) : bool :=
+  match a, b with
+  | [], _ => true
+  | _ :: _, [] => false
+  | x :: a', y :: b' => if x <? y then true else if y <? x then false else lex_leb a' b'
+  end.
+Lemma lex_leb_total a b : lex_leb a b = true \/ lex_leb b a = true.
 Proof.
-  induction l as [|a r IH]; cbn; [split; [constructor|reflexivity]|].
-  rewrite andb_true_iff, negb_true_iff, IH. split.
-  - intros [Hm Hr]. constructor; [|exact Hr]. intros Hin. apply (memb_In eid_eqf eid_eqf_spec) in Hin. congruence.
-  - intros H. inversion H as [|? ? Ha Hr]; subst. split; [|exact Hr]. apply not_true_is_false. intros Hm.
-    apply (memb_In eid_eqf eid_eqf_spec) in Hm. contradiction.
+  revert b. induction a as [|x a IH]; destruct b as [|y b]; cbn; auto.
+  destruct (Z.ltb_spec x y), (Z.ltb_spec y x); auto; lia.
+Qed.
+Module EidOrder <: TotalLeBool.
+  Definition t := eid.
+  Definition leb (a b : eid) : bool := lex_leb [ef a; eh a; ex a; ey a; ev a] [ef b; eh b; ex b; ey b; ev b].
+  Theorem leb_total : forall a b, leb a b = true \/ leb b a = true.
+  Proof. intros a b. apply lex_leb_total. Qed.
+End EidOrder.
+Module EidSort := Sort EidOrder.
+Definition eid_key (j : eid) : list Z := [ef j; eh j; ex j; ey j; ev j].
+Lemma lex_leb_trans a b c : lex_leb a b = true -> lex_leb b c = true -> lex_leb a c = true.
+Proof.
+  revert b c. induction a as [|x a IH]; intros [|y b] [|z c]; cbn; try congruence; auto.
+  destruct (Z.ltb_spec x y), (Z.ltb_spec y x), (Z.ltb_spec y z), (Z.ltb_spec z y), (Z.ltb_spec x z), (Z.ltb_spec z x);
+    try congruence; try lia; intros; eapply IH; eassumption.
+Qed.
+Lemma lex_leb_antisym a b : lex_leb a b = true -> lex_leb b a = true -> a = b.
+Proof.
+  revert b. induction a as [|x a IH]; intros [|y b]; cbn; try congruence.
+  destruct (Z.ltb_spec x y), (Z.ltb_spec y x); try congruence; try lia. intros H1 H2. f_equal; [lia|auto].
+Qed.
+Lemma eid_leb_trans : Relations_1.Transitive (fun a b => is_true (EidOrder.leb a b)).
+Proof. intros a b c. unfold EidOrder.leb. apply lex_leb_trans. Qed.
+Lemma eid_leb_antisym a b : EidOrder.leb a b = true -> EidOrder.leb b a = true -> a = b.
+Proof.
+  unfold EidOrder.leb. intros H1 H2. pose proof (lex_leb_antisym _ _ H1 H2) as E. destruct a, b; cbn in E. congruence.
+Qed.
+
+(* duplicate test and duplicate removal through the sorted list (n log n; the quadratic versions limit the result sizes that can be run) *)
+Fixpoint adj_distinct (l : list eid) : bool :=
+  match l with a :: (b :: _) as r => negb (eid_eqb a b) && adj_distinct r | _ => true end.
+Fixpoint dedup_adj (l : list eid) : list eid :=
+  match l with a :: (b :: _) as r => if eid_eqb a b then dedup_adj r else a :: dedup_adj r | _ => l end.
+Definition nodup_sortb (l : list eid) : bool := adj_distinct (EidSort.sort l).
+Definition dedup_sort (l : list eid) : list eid := dedup_adj (EidSort.sort l).
+
+Lemma adj_distinct_cons2 a b l : adj_distinct (a :: b :: l) = negb (eid_eqb a b) && adj_distinct (b :: l).
+Proof. reflexivity. Qed.
+Lemma dedup_adj_cons2 a b l : dedup_adj (a :: b :: l) = if eid_eqb a b then dedup_adj (b :: l) else a :: dedup_adj (b :: l).
+Proof. reflexivity. Qed.
+Lemma ss_head_notin a b l : Sorted.StronglySorted (fun x y => is_true (EidOrder.leb x y)) (a :: b :: l) -> a <> b -> ~ In a (b :: l).
+Proof.
+  intros S N [E|H]; [congruence|]. inversion S as [|? ? S1 F1]; subst. inversion S1 as [|? ? S2 F2]; subst.
+  inversion F1 as [|? ? Lab _]; subst. rewrite Forall_forall in F2. specialize (F2 a H). apply N. now apply eid_leb_antisym.
+Qed.
+Lemma ss_adj_nodup l : Sorted.StronglySorted (fun x y => is_true (EidOrder.leb x y)) l -> adj_distinct l = true -> NoDup l.
+Proof.
+  induction l as [|a [|b l] IH]; intros S H; [constructor|constructor; [intros []|constructor]|].
+  rewrite adj_distinct_cons2 in H. apply andb_true_iff in H. destruct H as [N H]. apply negb_true_iff in N.
+  constructor; [|apply IH; [now inversion S|exact H]].
+  apply ss_head_notin; [exact S|]. intros E. destruct (eid_eqb_spec a b); congruence.
+Qed.
+Lemma nodup_adj l : NoDup l -> adj_distinct l = true.
+Proof.
+  induction l as [|a [|b l] IH]; intros H; try reflexivity. rewrite adj_distinct_cons2. inversion H as [|? ? Ha Hl]; subst.
+  rewrite (IH Hl), andb_true_r. apply negb_true_iff. destruct (eid_eqb_spec a b) as [->|]; [|reflexivity]. exfalso. apply Ha. now left.
+Qed.
+Theorem nodup_sortb_spec l : nodup_sortb l = true <-> NoDup l.
+Proof.
+  unfold nodup_sortb. pose proof (EidSort.Permuted_sort l) as P. split.
+  - intros H. apply (Permutation_NoDup (Permutation_sym P)). apply ss_adj_nodup; [|exact H]. apply EidSort.StronglySorted_sort, eid_leb_trans.
+  - intros H. apply nodup_adj. exact (Permutation_NoDup P H).
+Qed.
+Lemma dedup_adj_In x l : In x (dedup_adj l) <-> In x l.
+Proof.
+  induction l as [|a [|b l] IH]; try tauto. rewrite dedup_adj_cons2. destruct (eid_eqb_spec a b) as [->|N].
+  - rewrite IH. cbn [In]. tauto.
+  - cbn [In] in *. rewrite IH. tauto.
+Qed.
+Lemma dedup_adj_nodup l : Sorted.StronglySorted (fun x y => is_true (EidOrder.leb x y)) l -> NoDup (dedup_adj l).
+Proof.
+  induction l as [|a [|b l] IH]; intros S; [constructor|constructor; [intros []|constructor]|].
+  rewrite dedup_adj_cons2. assert (S' : Sorted.StronglySorted (fun x y => is_true (EidOrder.leb x y)) (b :: l)) by now inversion S.
+  destruct (eid_eqb_spec a b) as [->|N]; [now apply IH|]. constructor; [|now apply IH].
+  rewrite dedup_adj_In. now apply ss_head_notin.
+Qed.
+Theorem dedup_sort_spec l : NoDup (dedup_sort l) /\ forall x, In x (dedup_sort l) <-> In x l.
+Proof.
+  unfold dedup_sort. split; [apply dedup_adj_nodup, EidSort.StronglySorted_sort, eid_leb_trans|].
+  intros x. rewrite dedup_adj_In. pose proof (EidSort.Permuted_sort l) as P.
+  split; [apply (Permutation_in _ (Permutation_sym P))|apply (Permutation_in _ P)].
+Qed.
+Corollary dedup_sort_nodupb l : Permutation (dedup_sort l) (nodupb eid_eqf l).
+Proof.
+  destruct (dedup_sort_spec l) as [N M]. apply NoDup_Permutation; [exact N|apply (nodupb_NoDup eid_eqf eid_eqf_spec)|].
+  intros x. rewrite M, (nodupb_In eid_eqf eid_eqf_spec). tauto.
 Qed.
 
 (* observed: Some r = no error, IDs r;  None = an error and no result.  The reference of every tile is computed once. *)
 Definition check_eids (l : list tile) (E O outV : Z) (obs : option (list eid)) : bool :=
   let refs := map (fun t => (t, tile_ref E O outV t)) l in
   match obs with
-  | Some r => ext_check_zoom 0 outV && nodup_fast r && forallb (covered_ref outV r) refs && forallb (fun j => existsb (fun tr => stems_ref outV tr j) refs) r
+  | Some r => ext_check_zoom 0 outV && nodup_sortb r && forallb (covered_ref outV r) refs && forallb (fun j => existsb (fun tr => stems_ref outV tr j) refs) r
   | None => negb (ext_check_zoom 0 outV) || existsb rejected_ref refs
   end.
 
@@ -111,7 +213,7 @@ Proof. intros H. induction l as [|a l IH]; cbn; [reflexivity|]. now rewrite H, I
 Lemma check_eids_unfold l E O outV obs :
   check_eids l E O outV obs =
   match obs with
-  | Some r => ext_check_zoom 0 outV && nodup_fast r && forallb (covered_b E O outV r) l && forallb (fun j => existsb (fun t => stems_b E O outV t j) l) r
+  | Some r => ext_check_zoom 0 outV && nodup_sortb r && forallb (covered_b E O outV r) l && forallb (fun j => existsb (fun t => stems_b E O outV t j) l) r
   | None => negb (ext_check_zoom 0 outV) || existsb (rejected_b E O outV) l
   end.
 Proof.
@@ -122,7 +224,7 @@ Proof.
 Qed.
 
 (* the specification in the words of the property *)
-Definition eids_spec (l : list tile) (E O outV : Z) (obs : option (list eid)) : Prop :=
+Definition eids_spec_k (l : list tile) (E O outV : Z) (obs : option (list eid)) : Prop :=
   match obs with
   | Some r => 0 <= outV <= 35 /\ (forall t, In t l -> exists mn mx, tile_accepted E O outV t mn mx) /\ NoDup r /\
               (forall j, In j r <-> exists t, In t l /\ from_tile E O outV t j)
@@ -179,10 +281,10 @@ Proof.
 Qed.
 
 (* THE CHECKER DECIDES THE SPECIFICATION *)
-Theorem check_eids_sound l E O outV obs : check_eids l E O outV obs = true <-> eids_spec l E O outV obs.
+Theorem check_eids_sound l E O outV obs : check_eids l E O outV obs = true <-> eids_spec_k l E O outV obs.
 Proof.
-  rewrite check_eids_unfold. destruct obs as [r|]; cbn [eids_spec].
-  - rewrite !andb_true_iff, nodup_fast_spec, !forallb_forall, ext_check_zoom_0. split.
+  rewrite check_eids_unfold. destruct obs as [r|]; cbn [eids_spec_k].
+  - rewrite !andb_true_iff, nodup_sortb_spec, !forallb_forall, ext_check_zoom_0. split.
     + intros [[[Hz Hnd] Hcov] Hst]. split; [exact Hz|]. split; [|split; [exact Hnd|]].
       * intros t Ht. pose proof (Hcov t Ht) as C. apply (covered_b_spec _ _ _ _ _ Hnd) in C. destruct C as (mn & mx & A & _). eauto.
       * intros j. split.
@@ -201,28 +303,87 @@ Proof.
 Qed.
 
 (* the model meets the specification, and the specification fixes the result up to order *)
-Theorem eids_spec_model l E O outV : eids_spec l E O outV (res_opt (tiles_to_eids l E O outV)).
+Theorem eids_spec_k_model l E O outV : eids_spec_k l E O outV (res_opt (tiles_to_eids l E O outV)).
 Proof.
-  destruct (tiles_to_eids l E O outV) as [r|] eqn:H; cbn [res_opt eids_spec].
+  destruct (tiles_to_eids l E O outV) as [r|] eqn:H; cbn [res_opt eids_spec_k].
   - split; [apply tiles_to_eids_Ok_inv in H; tauto|]. split; [|split].
     + intros t Ht. destruct (tiles_to_eids_complete _ _ _ _ _ _ H Ht) as (mn & mx & A & _). eauto.
     + eapply tiles_to_eids_NoDup; eauto.
     + apply tiles_to_eids_members. exact H.
   - apply tiles_to_eids_err_iff. exact H.
 Qed.
-Theorem eids_spec_unique l E O outV obs : eids_spec l E O outV obs ->
+Theorem eids_spec_k_unique l E O outV obs : eids_spec_k l E O outV obs ->
   match obs, tiles_to_eids l E O outV with
   | Some r, Ok r' => Permutation r r'
   | None, Err => True
   | _, _ => False
   end.
 Proof.
-  intros S. pose proof (eids_spec_model l E O outV) as M. destruct obs as [r|], (tiles_to_eids l E O outV) as [r'|] eqn:H; cbn [res_opt eids_spec] in *.
+  intros S. pose proof (eids_spec_k_model l E O outV) as M. destruct obs as [r|], (tiles_to_eids l E O outV) as [r'|] eqn:H; cbn [res_opt eids_spec_k] in *.
   - destruct S as (_ & _ & N1 & M1), M as (_ & _ & N2 & M2). apply NoDup_Permutation; try assumption. intros j. rewrite M1, M2. tauto.
   - destruct S as (Hz & A & _), M as [N|(t & Ht & R)]; [contradiction|]. destruct (A t Ht) as (mn & mx & [Z K]). destruct R as [R|R]; congruence.
   - destruct M as (Hz & A & _), S as [N|(t & Ht & R)]; [contradiction|]. destruct (A t Ht) as (mn & mx & [Z K]). destruct R as [R|R]; congruence.
   - exact I.
 Qed.
+
+(* THE SPECIFICATION IN WORDS THAT DO NOT MENTION THE CONVERSION FUNCTION (Tile.tile_fits / stems_from): zooms in 0..35, z an index of
+   its vertical zoom, the metre-widened cover of the tile's altitude interval inside [-2^outV, 2^outV); the IDs are exactly the voxels
+   with a tile's footprint, the requested vertical zoom and a vertical index in that tile's widened cover, none twice *)
+Definition eids_spec (l : list tile) (E O outV : Z) (obs : option (list eid)) : Prop :=
+  match obs with
+  | Some r => 0 <= outV <= 35 /\ (forall t, In t l -> tile_fits E O outV t) /\ NoDup r /\
+              (forall j, In j r <-> exists t, In t l /\ stems_from E O outV t j)
+  | None => ~ (0 <= outV <= 35) \/ exists t, In t l /\ ~ tile_fits E O outV t
+  end.
+Lemma eids_spec_iff l E O outV obs : eids_spec l E O outV obs <-> eids_spec_k l E O outV obs.
+Proof.
+  destruct obs as [r|]; cbn [eids_spec eids_spec_k].
+  - split; intros (Hz & Hall & Hnd & Hm); (split; [exact Hz|]); (split; [|split; [exact Hnd|]]).
+    + intros t Ht. eexists _, _. apply tile_accepted_iff. split; [apply Hall, Ht|split; reflexivity].
+    + intros j. rewrite Hm. split; intros (t & Ht & X); exists t; (split; [exact Ht|]); now apply from_tile_iff.
+    + intros t Ht. destruct (Hall t Ht) as (mn & mx & A). apply tile_accepted_iff in A. tauto.
+    + intros j. rewrite Hm. split; intros (t & Ht & X); exists t; (split; [exact Ht|]); now apply from_tile_iff.
+  - split; (intros [N|(t & Ht & R)]; [now left|right]); exists t; (split; [exact Ht|]); now apply tile_rejected_iff.
+Qed.
+Theorem check_eids_decides l E O outV obs : check_eids l E O outV obs = true <-> eids_spec l E O outV obs.
+Proof. rewrite eids_spec_iff. apply check_eids_sound. Qed.
+Theorem eids_spec_of_model l E O outV : eids_spec l E O outV (res_opt (tiles_to_eids l E O outV)).
+Proof. apply eids_spec_iff, eids_spec_k_model. Qed.
+Theorem eids_spec_fixes_result l E O outV obs : eids_spec l E O outV obs ->
+  match obs, tiles_to_eids l E O outV with
+  | Some r, Ok r' => Permutation r r'
+  | None, Err => True
+  | _, _ => False
+  end.
+Proof. intros S. apply eids_spec_k_unique, eids_spec_iff, S. Qed.
+Lemma eids_spec_perm l E O outV r r' : Permutation r r' -> eids_spec l E O outV (Some r) -> eids_spec l E O outV (Some r').
+Proof.
+  intros P (Hz & Hall & Hnd & Hm). split; [exact Hz|]. split; [exact Hall|]. split; [exact (Permutation_NoDup P Hnd)|].
+  intros j. rewrite <- Hm. split; [apply (Permutation_in _ (Permutation_sym P))|apply (Permutation_in _ P)].
+Qed.
+
+(* WHAT AN ACCEPTED OBSERVATION OF THE EXTENDED VARIANT GUARANTEES, in the words of the property: every tile fits; no ID twice; every ID
+   keeps the footprint of a tile and has the requested vertical zoom; the IDs cover every tile (footprint x altitude interval); no ID
+   strays beyond the metre-widened interval of a tile with its footprint *)
+Theorem eids_accepted_observation l E O outV r : check_eids l E O outV (Some r) = true ->
+  0 <= outV <= 35 /\ (forall t, In t l -> tile_fits E O outV t) /\ NoDup r /\
+  (forall j, In j r -> ev j = outV /\ exists t, In t l /\ eh j = th t /\ ex j = tx t /\ ey j = ty t) /\
+  (forall t p, In t l -> inT E O t p -> exists j, In j r /\ Voxel.inR j p) /\
+  (forall j, In j r -> exists t, In t l /\ eh j = th t /\ ex j = tx t /\ ey j = ty t /\
+     exists a, (IZR (Zfloor (tile_lo E O t)) <= a < IZR (Zceil (tile_hi E O t)))%R /\ in_cell (sid_scale outV) (ef j) a).
+Proof.
+  intros C. apply check_eids_decides in C. pose proof (eids_spec_fixes_result _ _ _ _ _ C) as U.
+  destruct (tiles_to_eids l E O outV) as [r'|] eqn:H; [|contradiction]. destruct C as (Hz & Hall & Hnd & Hm).
+  split; [exact Hz|]. split; [exact Hall|]. split; [exact Hnd|]. split; [|split].
+  - intros j Hj. apply Hm in Hj. destruct Hj as (t & Ht & _ & E1 & E2 & E3 & E4 & _). split; [exact E4|]. exists t. auto.
+  - intros t p Ht Hp. destruct (tiles_cover _ _ _ _ _ _ _ H Ht Hp) as (j & Hj & Hr). exists j. split; [|exact Hr].
+    exact (Permutation_in _ (Permutation_sym U) Hj).
+  - intros j Hj. apply (Permutation_in _ U) in Hj. destruct (tiles_no_stray _ _ _ _ _ _ H Hj) as (t & Ht & E1 & E2 & E3 & _ & W & _).
+    exists t. auto.
+Qed.
+Theorem eids_rejected_observation l E O outV : check_eids l E O outV None = true ->
+  ~ (0 <= outV <= 35) \/ exists t, In t l /\ ~ tile_fits E O outV t.
+Proof. intros C. apply check_eids_decides in C. exact C. Qed.
 
 (* =====================================================================================================================
    2. The checker for ConvertTileXYZsToSpatialIDs: the observed strings are, as a multiset, the C10 expansion of the reference IDs
@@ -235,25 +396,6 @@ Definition ref_range (E O outV : Z) (t : tile) : list eid :=
 Definition ref_eids (l : list tile) (E O outV : Z) : option (list eid) :=
   if negb (ext_check_zoom 0 outV) || existsb (rejected_b E O outV) l then None else Some (nodupb eid_eqf (flat_map (ref_range E O outV) l)).
 
-(* multiset equality of ID lists: merge sort on the five numbers (vertical index first), then ordered comparison *)
-Fixpoint lex_leb (a b : list Z) : bool :=
-  match a, b with
-  | [], _ => true
-  | _ :: _, [] => false
-  | x :: a', y :: b' => if x <? y then true else if y <? x then false else lex_leb a' b'
-  end.
-Lemma lex_leb_total a b : lex_leb a b = true \/ lex_leb b a = true.
-Proof.
-  revert b. induction a as [|x a IH]; destruct b as [|y b]; cbn; auto.
-  destruct (Z.ltb_spec x y), (Z.ltb_spec y x); auto; lia.
-Qed.
-Module EidOrder <: TotalLeBool.
-  Definition t := eid.
-  Definition leb (a b : eid) : bool := lex_leb [ef a; eh a; ex a; ey a; ev a] [ef b; eh b; ex b; ey b; ev b].
-  Theorem leb_total : forall a b, leb a b = true \/ leb b a = true.
-  Proof. intros a b. apply lex_leb_total. Qed.
-End EidOrder.
-Module EidSort := Sort EidOrder.
 Definition eids_multiset_eqb (a b : list eid) : bool := list_eqb eid_eqb (EidSort.sort a) (EidSort.sort b).
 Lemma eids_multiset_eqb_perm a b : eids_multiset_eqb a b = true -> Permutation a b.
 Proof.
@@ -331,7 +473,7 @@ Qed.
 
 Theorem check_sids_sound l E O outV obs : check_sids l E O outV obs = true -> sids_spec l E O outV obs.
 Proof.
-  unfold check_sids. rewrite ref_eids_model. pose proof (eids_spec_model l E O outV) as M.
+  unfold check_sids. rewrite ref_eids_model. pose proof (eids_spec_of_model l E O outV) as M.
   destruct (tiles_to_eids l E O outV) as [r|]; cbn [res_opt] in *; destruct obs as [ss|]; try discriminate; cbn [sids_spec].
   - intros H. exists r. split; [exact M|]. now apply sids_match_sound.
   - intros _. exact M.
@@ -340,7 +482,7 @@ Qed.
    of their horizontal zoom *)
 Theorem sids_spec_model l E O outV : sids_spec l E O outV (res_opt (tiles_to_sids l E O outV)).
 Proof.
-  pose proof (eids_spec_model l E O outV) as M. rewrite tiles_to_sids_print. unfold tiles_to_sids_rec.
+  pose proof (eids_spec_of_model l E O outV) as M. rewrite tiles_to_sids_print. unfold tiles_to_sids_rec.
   destruct (tiles_to_eids l E O outV) as [r|]; cbn [res_opt sids_spec] in *; [|exact M]. exists r. split; [exact M|apply Permutation_refl].
 Qed.
 Theorem check_sids_model l E O outV : (forall t, In t l -> footprint_ok t) ->
@@ -359,7 +501,7 @@ Theorem sids_spec_consequences l E O outV ss : sids_spec l E O outV (Some ss) ->
     (forall p, (exists j, In j js /\ Voxel.inR j p) <-> (exists i, In i r /\ Voxel.inR i p)) /\
     (forall t p, In t l -> inT E O t p -> exists j, In j js /\ Voxel.inR j p).
 Proof.
-  intros (r0 & S & P) Hf. pose proof (eids_spec_unique _ _ _ _ _ S) as U.
+  intros (r0 & S & P) Hf. pose proof (eids_spec_fixes_result _ _ _ _ _ S) as U.
   destruct (tiles_to_eids l E O outV) as [r|] eqn:H; [|contradiction]. cbn in U.
   assert (P2 : Permutation ss (map print_sid (flat_map expand_rec r))).
   { apply (Permutation_trans P). apply Permutation_map. now apply Permutation_flat_map. }
@@ -437,15 +579,97 @@ Definition obs_list (v : val) : option obsv :=
 
 Definition exact_tiles (ts : list tile) (E O outV : Z) : bool :=
   forallb (fun t => negb (ext_check_zoom (th t) outV) || exact64 (key2z64m (tz t) (tv t) outV E O)) ts.
+Definition footprint_okb (t : tile) : bool :=
+  (0 <=? tx t) && (tx t <? 2 ^ th t) && (0 <=? ty t) && (ty t <? 2 ^ th t).
+Lemma footprint_okb_spec t : footprint_okb t = true <-> footprint_ok t.
+Proof. unfold footprint_okb, footprint_ok. rewrite !andb_true_iff, !Z.leb_le, !Z.ltb_lt. tauto. Qed.
 
-(* one call of either conversion: (corr, prop, class, model value); None = shape not understood *)
+(* the extended variant evaluated in n log n: Base.zrange converts a unary counter to Z at every step (quadratic in the extracted code)
+   and nodupb is quadratic; the same lists are produced by counting up in Z and de-duplicating through the sorted list *)
+Fixpoint zrange_from (n : nat) (lo : Z) : list Z := match n with O => [] | S k => lo :: zrange_from k (lo + 1) end.
+Lemma zrange_from_spec n lo : zrange_from n lo = map (fun k => lo + Z.of_nat k) (seq 0 n).
+Proof.
+  revert lo. induction n as [|n IH]; intros lo; [reflexivity|]. cbn [zrange_from seq map]. rewrite IH, <- seq_shift, map_map. f_equal; [cbn; lia|].
+  apply map_ext. intros k. lia.
+Qed.
+Definition zrange_fast (lo hi : Z) : list Z := zrange_from (Z.to_nat (hi - lo + 1)) lo.
+Lemma zrange_fast_eq lo hi : zrange_fast lo hi = zrange lo hi.
+Proof. apply zrange_from_spec. Qed.
+Definition tile_ids_fast (E O outV : Z) (t : tile) : result (list eid) :=
+  if negb (ext_check_zoom (th t) outV) then Err
+  else match key2z (tz t) (tv t) outV E O with
+       | Err => Err
+       | Ok (mn, mx) => Ok (map (fun f => mk (th t) (tx t) (ty t) outV f) (zrange_fast mn mx))
+       end.
+Fixpoint tiles_collect_fast (E O outV : Z) (l : list tile) : result (list eid) :=
+  match l with
+  | [] => Ok []
+  | t :: r => match tile_ids_fast E O outV t with
+              | Err => Err
+              | Ok a => match tiles_collect_fast E O outV r with Err => Err | Ok b => Ok (a ++ b) end
+              end
+  end.
+Lemma tiles_collect_fast_eq E O outV l : tiles_collect_fast E O outV l = tiles_collect E O outV l.
+Proof.
+  induction l as [|t r IH]; [reflexivity|]. cbn [tiles_collect_fast tiles_collect]. rewrite IH.
+  unfold tile_ids_fast, tile_ids. destruct (negb _); [reflexivity|]. destruct (key2z _ _ _ _ _) as [[mn mx]|]; [|reflexivity].
+  now rewrite zrange_fast_eq.
+Qed.
+Definition tiles_to_eids_fast (l : list tile) (E O outV : Z) : result (list eid) :=
+  if negb (ext_check_zoom 0 outV) then Err
+  else match tiles_collect_fast E O outV l with Err => Err | Ok a => Ok (dedup_sort a) end.
+Theorem tiles_to_eids_fast_spec l E O outV :
+  match tiles_to_eids_fast l E O outV, tiles_to_eids l E O outV with
+  | Ok a, Ok b => Permutation a b
+  | Err, Err => True
+  | _, _ => False
+  end.
+Proof.
+  unfold tiles_to_eids_fast, tiles_to_eids. rewrite tiles_collect_fast_eq. destruct (ext_check_zoom 0 outV); cbn [negb]; [|exact I].
+  destruct (tiles_collect E O outV l) as [a|]; [apply dedup_sort_nodupb|exact I].
+Qed.
+
+(* SIZE GUARD. The invoker refuses a request whose zoom-only estimate of the number of results exceeds its cap and returns the marker
+   "c13-size-guard" instead of calling the library. `estimate` recomputes that estimate from the arguments (same formula as
+   c13.go estimate()); the case is answered "skipped" only if the estimate really exceeds the cap, and bad_case otherwise. *)
+Definition cap (spatial : bool) : Z := if spatial then 12000 else 140000.
+Definition tile_bits (spatial : bool) (E outV : Z) (f : list Z) : option (bool * Z) :=     (* (huge?, log2 of the bound) *)
+  match f with
+  | [h; _; _; kz; _] =>
+      if negb (zoom_ok h && zoom_ok kz) then None else
+      let tall := if kz <? E then E - kz else 0 in
+      let b0 := outV - 25 + tall in
+      let b1 := if b0 <? 0 then 0 else b0 in
+      let b2 := if spatial then (if h <? outV then b1 + 2 * (outV - h) else b1 + (h - outV)) else b1 in
+      Some ((60 <? tall) || (40 <? b2), b2)
+  | _ => None
+  end.
+Definition estimate (spatial : bool) (raw : list (list Z)) (E outV : Z) : Z :=
+  if negb (zoom_ok outV) then 0 else
+  let bs := map (tile_bits spatial E outV) raw in
+  if existsb (fun b => match b with Some (true, _) => true | _ => false end) bs then 2 ^ 40
+  else fold_right (fun b acc => match b with Some (_, n) => 2 ^ n + 1 + acc | None => acc end) 0 bs.
+Definition is_marker (v : val) : bool := match v with VS s => String.eqb s "c13-size-guard" | _ => false end.
+
+(* one call of either conversion: (corr, prop, class, model value); None = not a case of the property's domain / shape not understood
+   (answered bad_case). Order of the tests: size marker; error together with a partial result (never acceptable, wherever);
+   request that cannot be built; int64 domain of the range computation; for the spatial variant x, y inside the grid (the expansion
+   multiplies x, y by 2^d in int64: the model over Z is the code only for footprints of the grid). *)
 Definition eval_call (spatial : bool) (tiles : list val) (E O outV : Z) (obs : val) : option verdict :=
+  if is_marker obs then
+    match all_opt (map as_LZ tiles) with
+    | Some raw => if cap spatial <? estimate spatial raw E outV then Some (mkv true true "skipped" VNil) else None
+    | None => None
+    end
+  else
   match build tiles, obs_list obs with
-  | Some Err, Some o =>                     (* a tile could not be built: the call must fail without a result *)
+  | Some _, Some ErrPartial => Some (mkv false false "-" (VE VNil))
+  | Some Err, Some o =>                     (* a tile could not be built (NewTileXYZ refused it): no conversion took place *)
       let ok := match o with ErrNil => true | _ => false end in Some (mkv ok ok "-" (VE VNil))
   | Some (Ok ts), Some o =>
-      if negb (exact_tiles ts E O outV) then Some (mkv true true "int64_overflow" VNil) else
+      if negb (exact_tiles ts E O outV) then None else
       if spatial then
+        if negb (forallb footprint_okb ts) then None else
         let m := tiles_to_sids ts E O outV in
         let mv := match m with Ok ss => of_LS ss | Err => VE VNil end in
         match o with
@@ -459,13 +683,14 @@ Definition eval_call (spatial : bool) (tiles : list val) (E O outV : Z) (obs : v
                     end
         end
       else
-        let m := tiles_to_eids ts E O outV in
+        let m := tiles_to_eids_fast ts E O outV in
         let mv := match m with Ok r => VL (map eid_val r) | Err => VE VNil end in
         match o with
         | ErrPartial => Some (mkv false false "-" mv)
         | ErrNil => Some (mkv (negb (is_ok m)) (check_eids ts E O outV None) "-" mv)
         | OkV vs => match all_opt (map val_eid vs) with
-                    | Some r => Some (mkv (match m with Ok mr => eids_multiset_eqb mr r | Err => false end) (check_eids ts E O outV (Some r)) "-" mv)
+                    | Some r => Some (mkv (match m with Ok mr => list_eqb eid_eqb mr (EidSort.sort r) | Err => false end)
+                                          (check_eids ts E O outV (Some r)) "-" mv)
                     | None => None
                     end
         end
